@@ -216,6 +216,41 @@ def w_dumpmix(cs):
     return [pjob(bytes([5, 0, 2, 1, 2, 0, 3, 4, 0, 9])), djob(300, [(1, 2), (3, 4), (5, 6)], 7), zjob()]
 
 
+def w_exprneg(cs):
+    T = cs.s
+
+    def job(d):
+        def f():
+            s = io.BytesIO(d)
+            o = T(s)
+            return (norm(o), s.tell(), dict(o._sizes))
+        return f
+    # a[-(-n)], b[n * -1 + 4], c[~n & 3], d[- -k]
+    return [job(bytes([1, 2]) + bytes([7]) + bytes([1, 2, 3]) + bytes([8, 9]) + bytes([5, 6]) + b"\x0a"),
+            job(bytes([3, 1]) + bytes([7, 7, 7]) + bytes([1]) + bytes([]) + bytes([4]) + b"\x0b"),
+            job(bytes([0, 0]) + bytes([1, 2, 3, 4]) + bytes([9, 9, 9]) + b"\x0c")]
+
+
+def w_unionwrite(cs):
+    T = cs.s
+    U = cs.U
+
+    def pjob(d):
+        def f():
+            s = io.BytesIO(d)
+            o = T(s)
+            return (norm(o), s.tell(), o.dumps())
+        return f
+
+    def djob(value):
+        def f():
+            u = U(value=value)
+            d = u.dumps()
+            return (d, norm(U(d)), U(d).dumps())
+        return f
+    return [djob(0x11223344), pjob(bytes([2, 1, 2, 3, 4, 5, 6, 7, 8, 0, 0, 0, 0, 0x7e])), djob(0xA1B2C3D4)]
+
+
 WORKLOADS = [
     ("expr", "struct s { uint8 n; uint8 m; char d[(n + m) * 2 - 1]; uint16 v[n]; uint8 z; };", w_expr),
     ("bits", "enum E : uint8 { A, B, C };\nstruct s { uint16 a:3; uint16 b:13; E e:4; uint8 r:4; int32 x; };", w_bits),
@@ -230,6 +265,12 @@ WORKLOADS = [
     ("enums", "flag F : uint8 { A, B, C };\nenum E : uint16 { X = 1, Y };\nstruct s { F f; E e[2]; F g : 3; uint8 r : 5; };",
      w_enums),
     ("dumpmix", "struct it { uint8 x; uint16 y; };\nstruct s { uint16 a; uint8 n; it items[n]; uint8 t; };", w_dumpmix),
+    # unary operators in lengths (the evaluator rewrites its token list for them)
+    ("exprneg", "struct s { uint8 n; uint8 k; uint8 a[-(-n)]; uint8 b[n * -1 + 4]; uint8 c[~n & 3]; uint8 d[- -k]; uint8 z; };",
+     w_exprneg),
+    # a union whose first member is not its largest: written directly and compared with its terminator while parsing
+    ("unionwrite", "union U { uint8 tag; uint32 value; uint16 half[2]; };\nstruct s { uint8 n; U items[]; uint8 tail; };",
+     w_unionwrite),
 ]
 
 
@@ -245,9 +286,9 @@ def run_schedule(jobs, switches, first, nthreads):
     return s, res
 
 
-def judge(ctx, wname, compiled, jobs, seq, switches, first, nthreads, label):
+def judge(ctx, wname, compiled, jobs, seq, switches, first, nthreads, label, cold=False):
     s, res = run_schedule(jobs, switches, first, nthreads)
-    ctx.evaluation((wname, compiled, tuple(sorted(switches)), first, nthreads))
+    ctx.evaluation((wname, compiled, tuple(sorted(switches)), first, nthreads, cold))
     ctx.event(f"schedules:{label}")
     for sp in s.switch_points:
         ctx.extra.setdefault("switch_points", set()).add(sp[1:])
@@ -260,7 +301,7 @@ def judge(ctx, wname, compiled, jobs, seq, switches, first, nthreads, label):
         where = s.switch_points[:4]
         ctx.violation("schedule", "thread-result-differs-from-sequential-result",
                       {"workload": wname, "compiled": compiled, "switches": sorted(switches), "first": first,
-                       "threads": nthreads, "differing_threads": bad, "switch_points": where,
+                       "threads": nthreads, "cold": cold, "differing_threads": bad, "switch_points": where,
                        "got": repr([got[i] for i in bad])[:500], "want": repr([seq[i] for i in bad])[:500]})
         return False
     return True
@@ -289,6 +330,22 @@ def run(ctx):
             singles = [(p, first) for first in (0, 1) for p in range(1, n_steps + 1)]
             for p, first in singles[ctx.shard::ctx.nshards]:
                 judge(ctx, wname, compiled, jobs, seq, {p}, first, 2, "one-preemption")
+            # the same on *cold* types: a fresh cstruct object per schedule, so that whatever the library sets up
+            # lazily on first use (caches on classes, generated code, pseudo-members) is set up while the threads
+            # interleave.  Every single-preemption schedule in thorough, every third one in quick.
+            csc, jobsc = build(wname, text, factory, compiled)
+            sc, resc = run_schedule(jobsc, (), 0, 2)
+            cold_steps = sc.step
+            per_workload[f"{wname}:{'compiled' if compiled else 'interpreted'}:cold"] = cold_steps
+            cold = [(p, first) for first in (0, 1) for p in range(1, cold_steps + 1)]
+            if not ctx.thorough:
+                cold = cold[(wi % 3)::3]
+            for p, first in cold[ctx.shard::ctx.nshards]:
+                if ctx.out_of_time():
+                    ctx.note_inconclusive("cold single-preemption enumeration stopped by the shard budget")
+                    break
+                csc, jobsc = build(wname, text, factory, compiled)
+                judge(ctx, wname, compiled, jobsc, seq, {p}, first, 2, "one-preemption-cold", cold=True)
             # random multi-preemption schedules with 2 and 3 threads
             rng = ctx.rng("multi", wname, compiled)
             n_multi = (12 if not ctx.thorough else 400)
@@ -366,11 +423,13 @@ def replay(ctx, detail):
     try:
         cs, jobs = build(w[0], w[1], w[2], detail["compiled"])
         seq = [j() for j in jobs]
+        if detail.get("cold"):
+            cs, jobs = build(w[0], w[1], w[2], detail["compiled"])
         print("sequential:", seq[:detail["threads"]])
         s, res = run_schedule(jobs, set(detail["switches"]), detail["first"], detail["threads"])
         print("scheduled :", res)
         print("switch points:", s.switch_points)
         judge(ctx, w[0], detail["compiled"], jobs, seq, set(detail["switches"]), detail["first"], detail["threads"],
-              "replay")
+              "replay", cold=bool(detail.get("cold")))
     finally:
         sched.stop()
